@@ -787,6 +787,12 @@ pub fn c13(c: &Case) {
                 }
                 let raised = AtomicBool::new(true);
                 if planner.plan_rrt(s, g, &k, &raised).is_ok() { bad.push("planner returned a path although the cancellation flag was raised before planning".into()); }
+                // also when the goal is within one planner step of the start, or is the start itself
+                for frac in [0.0f64, 0.4] {
+                    let mut g2 = *s; let n: f64 = (0..6).map(|j| (g[j] - s[j]).powi(2)).sum::<f64>().sqrt();
+                    if n > 0.0 { for j in 0..6 { g2[j] = s[j] + (g[j] - s[j]) / n * step * frac; } }
+                    if planner.plan_rrt(s, &g2, &k, &raised).is_ok() { bad.push(format!("planner returned a path although the cancellation flag was raised before planning (goal {} steps from the start)", frac)); }
+                }
             }
         }
     }
